@@ -102,10 +102,23 @@ def run(chk):
     for d in "0123456789":
         rs += [d, "7" + d, d + ".5", "3." + d, "0.0" + d, "2e" + d, "2e-" + d, "1" + d + "e1" + d, "-" + d, "+" + d + "." + d]
     res2 = run_literals(chk, rs, "c07-random", "random literals", chunk=400)
+    # one literal several times in one query, with and without the percent sign, next to literals that differ from it in
+    # one character: what a literal denotes must not depend on what else the query contains
+    small = [s for s in lits if len(s) <= 6][:: max(1, len([s for s in lits if len(s) <= 6]) // 250)] + [x for x in rs if len(x) <= 30][:250]
+    multi = []
+    for s_ in small:
+        u = s_.lstrip("+-")       # (a sign between two literals would be read as an operator)
+        if not u:
+            continue
+        multi.append(rnd.choice(["(%s) (%s%%) (%s)", "(%s%%) (%s) (%s%%)", "%s + %s%% + %s", "%s%% + %s", "(%s) (%s%%) (%s0)", "%s * %s%% - %s"]).replace("%s", u).replace("%%", "%"))
+    path = lang.record(multi, "c07-multi")
+    res3 = lang.validate(chk, path, "c07-multi", label="a literal several times in one query", chunk=300)
+    chk.evals(res3.records)
+    lang.judge(chk, res3, lambda pr, rec: pr[0] in ("result", "count", "panic"), "a literal does not denote the number it spells when it stands next to other literals in one query")
     chk.cov["exhaustive"] = True
     chk.cov["rule"] = ("exhaustive: all %d well-formed literals among the strings of length <= %d over {0 1 9 + - . e E} (model), of which %d (exponent of at most three "
                        "digits; all up to 7 (thorough: 8) characters and every 5th (4th) of the longer ones) are replayed through three entry points (library parser, query, query with %%); "
-                       "plus %d random literals up to %d digits; one evaluation = one literal; non-trivial = has a point, an exponent or a "
+                       "plus %d random literals up to %d digits, and 500 queries in which one literal stands several times, with and without %%; one evaluation = one literal (or one such query); non-trivial = has a point, an exponent or a "
                        "leading zero" % (total, p["maxlen"], len(lits), len(rs), p["digits"]))
     chk.sample({"literal": lits[len(lits) // 3], "literals_replayed": len(lits)})
     chk.sample({"literal": rs[0][:80] + ("..." if len(rs[0]) > 80 else "")})
